@@ -290,55 +290,63 @@ def dropStor (p : Bool) (db : Db) : Db := fun k =>
   | Key.stor q _ => if q = p then none else db k
   | _ => db k
 
+def validStage (st : Nat) : Bool :=
+  st = stNone || st = stJumpStarted || st = stNewItems || st = stBlocksRemoved || st = stHeadersReset || st = stTransfersReset
+
+/-- stage stateJumpStarted: remove blocks t+1 … cur, intermediate batches every S blocks; the last batch
+carries marker staleBlocksRemoved. -/
+def stageBlocks (H : Hist) (S t cur : Nat) (db : Db) : Except Err (List Batch × Db) :=
+  match removeBlocks H S (t + 1) (cur - t) db [] 0 with
+  | .error e => .error e
+  | .ok (bs, _, rest) =>
+    let all := bs ++ [ofWrites (rest ++ [marker stBlocksRemoved])]
+    .ok (all, foldBatches all db)
+
+/-- stage staleBlocksRemoved: copy the storage of the trie of height t under the other prefix; marker
+newStorageItemsAdded. (One batch; the code splits every 200000 items, all of them idempotent puts.) -/
+def stageCopy (t : Nat) (p0 : Bool) (d : Db) : Batch :=
+  let items := match d (Key.trie t) with | some (Val.snap it) => it | _ => []
+  ofWrites (items.map (fun kv => (Key.stor (!p0) kv.1, some (Val.item kv.2))) ++ [marker stNewItems])
+
+/-- stage newStorageItemsAdded: purge headers above t, tip pointers, version with the other prefix; marker headersReset. -/
+def stageHeaders (B t hh : Nat) (p0 : Bool) : Batch :=
+  [W.trans (purgeHeaders t hh B), W.put Key.curBlock (some (Val.ptr t)), W.put Key.curHeader (some (Val.ptr t)),
+   W.put Key.version (some (Val.ver (!p0))), W.put Key.stage (some (Val.stagev true stHeadersReset))]
+
+/-- stage headersReset: MPT pointers and transfers; marker transfersReset. -/
+def stageMpt (t r : Nat) : Batch :=
+  [W.put (Key.root t) (some (Val.rootv r)), W.put Key.mptLocal (some (Val.ptr t)), W.trans (resetMptXfer t),
+   W.put Key.stage (some (Val.stagev true stTransfersReset))]
+
+/-- the SeekGC of the old storage prefix, directly on the backend. -/
+def stageGc (pOld : Bool) : Batch := [W.trans (dropStor pOld)]
+
+def stageDone : Batch := [W.put Key.stage none, W.put Key.syncPoint none]
+
 /-- the stages from `st` on, as the fallthrough switch of resetStateInternal; `hh` = header height of the
 running node. Result: the batches in commit order, the final database, and whether the stateroot module
 got (re)initialised on the way (it is only by the `headersReset` stage). -/
 def resetFrom (H : Hist) (B S : Nat) (t st hh : Nat) (db : Db) : Except Err (List Batch × Db × Bool) :=
-  if ¬ (st = stNone ∨ st = stJumpStarted ∨ st = stNewItems ∨ st = stBlocksRemoved ∨ st = stHeadersReset ∨ st = stTransfersReset) then
-    .error .badStage   -- "unknown state reset stage"
+  if ¬ validStage st then .error .badStage   -- "unknown state reset stage"
   else
   match db Key.curBlock, db (Key.exec t), db (Key.root t), db Key.version with
   | some (Val.ptr cur), some (Val.blk _), some (Val.rootv r), some (Val.ver p0) =>
-    -- stage stateJumpStarted: remove blocks t+1 … cur
-    let s2 : Except Err (List Batch × Db) :=
-      if st ≤ stJumpStarted then
-        match removeBlocks H S (t + 1) (cur - t) db [] 0 with
-        | .error e => .error e
-        | .ok (bs, _, rest) =>
-          let last := ofWrites (rest ++ [marker stBlocksRemoved])
-          .ok (bs ++ [last], foldBatches (bs ++ [last]) db)
-      else .ok ([], db)
-    match s2 with
+    match (if st ≤ stJumpStarted then stageBlocks H S t cur db else .ok ([], db)) with
     | .error e => .error e
     | .ok (b2, d2) =>
-      -- stage staleBlocksRemoved: copy the storage of the trie of height t under the other prefix
-      let (b3, d3) : List Batch × Db :=
-        if st ≤ stJumpStarted ∨ st = stBlocksRemoved then
-          let items := match d2 (Key.trie t) with | some (Val.snap it) => it | _ => []
-          let b := ofWrites (items.map (fun kv => (Key.stor (!p0) kv.1, some (Val.item kv.2))) ++ [marker stNewItems])
-          ([b], applyBatch b d2)
-        else ([], d2)
-      -- stage newStorageItemsAdded: headers, tip pointers, version
-      let pNew : Bool := if st ≤ stJumpStarted ∨ st = stBlocksRemoved ∨ st = stNewItems then !p0 else p0
-      let (b4, d4) : List Batch × Db :=
-        if st ≤ stJumpStarted ∨ st = stBlocksRemoved ∨ st = stNewItems then
-          let b : Batch := [W.trans (purgeHeaders t hh B), W.put Key.curBlock (some (Val.ptr t)), W.put Key.curHeader (some (Val.ptr t)),
-                            W.put Key.version (some (Val.ver (!p0))), W.put Key.stage (some (Val.stagev true stHeadersReset))]
-          ([b], applyBatch b d3)
-        else ([], d3)
-      -- stage headersReset: MPT pointers and transfers
-      let ran5 : Bool := decide (st ≠ stTransfersReset)
-      let (b5, d5) : List Batch × Db :=
-        if st ≠ stTransfersReset then
-          let b : Batch := [W.put (Key.root t) (some (Val.rootv r)), W.put Key.mptLocal (some (Val.ptr t)), W.trans (resetMptXfer t),
-                            W.put Key.stage (some (Val.stagev true stTransfersReset))]
-          ([b], applyBatch b d4)
-        else ([], d4)
+      let copy : Bool := decide (st ≤ stJumpStarted) || decide (st = stBlocksRemoved)
+      let b3 : List Batch := if copy then [stageCopy t p0 d2] else []
+      let d3 := foldBatches b3 d2
+      let hdrs : Bool := copy || decide (st = stNewItems)
+      let pNew : Bool := if hdrs then !p0 else p0
+      let b4 : List Batch := if hdrs then [stageHeaders B t hh p0] else []
+      let d4 := foldBatches b4 d3
+      let mpt : Bool := decide (st ≠ stTransfersReset)
+      let b5 : List Batch := if mpt then [stageMpt t r] else []
+      let d5 := foldBatches b5 d4
       -- common tail: SeekGC of the old prefix directly on the backend, then the marker removal
-      let b6 : Batch := [W.trans (dropStor (!pNew))]
-      let b7 : Batch := [W.put Key.stage none, W.put Key.syncPoint none]
-      let bs := b2 ++ b3 ++ b4 ++ b5 ++ [b6, b7]
-      .ok (bs, applyBatch b7 (applyBatch b6 d5), ran5)
+      let tail : List Batch := [stageGc (!pNew), stageDone]
+      .ok (b2 ++ b3 ++ b4 ++ b5 ++ tail, foldBatches tail d5, mpt)
   | none, _, _, _ => .error .noBlockPtr
   | _, _, none, _ => .error .noRoot
   | _, _, _, none => .error .noVersion
